@@ -616,6 +616,58 @@ theorem geometry_is_built_from_the_recorded_attributes :
     ⟨by decide, by decide, by decide, by decide, by decide, by decide⟩,
     ⟨by decide, by decide, by decide, by decide, by decide, by decide⟩⟩
 
+/-- **A tiled segmentation placed by the user records the user's position** — in x, y AND z (another focal plane),
+whatever else coincides with the source image: `origin_preserved` is regenerated from the constructor on every
+run; were one coordinate left out of it, the source's origin would be copied and the statement fails. -/
+theorem user_placed_tiled_origin (user src : V3) (sameOrientation sameSpacing sameTiles : Bool) :
+    recordedTiledOrigin user src sameOrientation sameSpacing sameTiles = .ok user := by
+  unfold recordedTiledOrigin originPreserved
+  simp only
+  split
+  · rename_i h
+    simp only [Bool.and_eq_true, beq_iff_eq] at h
+    obtain ⟨⟨⟨⟨⟨hx, hy⟩, hz⟩, _⟩, _⟩, _⟩ := h
+    cases user; cases src
+    simp only at hx hy hz
+    subst hx hy hz
+    rfl
+  · rfl
+
+set_option maxRecDepth 20000 in
+/-- **What a segmentation records of the placement it is given** (`storeStack`, `storeAligned`, `recordedHint`,
+`storeTiled`, `recordedTiledOrigin` assume exactly this; source text of `Segmentation.__init__`, block-local
+locals inlined): a volume contributes its own plane positions / orientation / measures; a missing
+SpacingBetweenSlices is inferred from ALL plane positions with the SEGMENTATION'S OWN orientation and recorded
+when one is found; a user-placed total pixel matrix takes X, Y and Z (default 0) from the single plane position,
+the source's from its origin sequence, tiles are laid out from that position, and the source's origin is copied
+only when spatial locations are preserved. -/
+theorem segmentation_records_the_placement :
+    (wiringSeg.lookup "from_volume.plane_positions" = some "pixel_array.get_plane_positions()" ∧
+     wiringSeg.lookup "from_volume.plane_orientation" = some "pixel_array.get_plane_orientation()" ∧
+     wiringSeg.lookup "from_volume.pixel_measures" = some "pixel_array.get_pixel_measures()") ∧
+    (wiringSeg.lookup "spacing_inference.only_if" = some "'SpacingBetweenSlices' not in pixel_measures[0]" ∧
+     wiringSeg.lookup "spacing_inference.image_positions" = some "plane_position_values[:, 0, :]" ∧
+     wiringSeg.lookup "spacing_inference.image_orientation" = some "plane_orientation[0].ImageOrientationPatient" ∧
+     wiringSeg.lookup "spacing_inference.recorded" = some "format_number_as_ds(slice_spacing)" ∧
+     wiringSeg.lookup "spacing_inference.recorded_if" = some "slice_spacing is not None") ∧
+    (wiringSeg.lookup "tiled.user_x_offset" = some "plane_positions[0][0].XOffsetInSlideCoordinateSystem" ∧
+     wiringSeg.lookup "tiled.user_y_offset" = some "plane_positions[0][0].YOffsetInSlideCoordinateSystem" ∧
+     wiringSeg.lookup "tiled.user_z_offset" = some "plane_positions[0][0].get('ZOffsetInSlideCoordinateSystem', 0.0)" ∧
+     wiringSeg.lookup "tiled.src_x_offset" = some "src_img.TotalPixelMatrixOriginSequence[0].XOffsetInSlideCoordinateSystem" ∧
+     wiringSeg.lookup "tiled.src_y_offset" = some "src_img.TotalPixelMatrixOriginSequence[0].YOffsetInSlideCoordinateSystem" ∧
+     wiringSeg.lookup "tiled.src_z_offset"
+       = some "src_img.TotalPixelMatrixOriginSequence[0].get('ZOffsetInSlideCoordinateSystem', 0.0)" ∧
+     wiringSeg.lookup "tiled.image_position" = some "[x_offset, y_offset, z_offset]" ∧
+     wiringSeg.lookup "tiled.tile_positions.total_pixel_matrix_image_position" = some "image_position" ∧
+     wiringSeg.lookup "tiled.tile_positions.pixel_spacing" = some "pixel_measures[0].PixelSpacing") ∧
+    (wiringSeg.lookup "slide_metadata.copy_source_origin_if" = some "are_spatial_locations_preserved and is_tiled" ∧
+     wiringSeg.lookup "slide_metadata.copied_origin" = some "deepcopy(source_image.TotalPixelMatrixOriginSequence)" ∧
+     wiringSeg.lookup "slide_metadata.call.are_spatial_locations_preserved" = some "are_spatial_locations_preserved" ∧
+     wiringSeg.lookup "slide_metadata.call.plane_position_values" = some "plane_position_values") := by
+  refine ⟨⟨by decide, by decide, by decide⟩, ⟨by decide, by decide, by decide, by decide, by decide⟩,
+    ⟨by decide, by decide, by decide, by decide, by decide, by decide, by decide, by decide, by decide⟩,
+    ⟨by decide, by decide, by decide, by decide⟩⟩
+
 /-! ## Non-vacuity: the hypotheses are satisfiable by concrete, non-trivial inputs -/
 
 /-- a left-handed, anisotropic, axis-swapped geometry (directions: d0 = −z, d1 = x, d2 = y) -/
